@@ -40,8 +40,9 @@ What is mirrored, statement by statement:
   scan, i.e. in (30 s, 31 s]; a reply arriving later finds no entry and is dropped.
 
 Modelled, not verified (parameters): the handler table (shape + behaviour of each
-method; behaviours complete exactly once — `ok`, `fail`, `panic`, and `slow`/`late`
-= `ok` after 2 s / 42 s through the service's timer), the route function outcome
+method; behaviours complete exactly once — `ok`, `fail`, `panic`, `slow`/`late`
+= `ok` after 2 s / 42 s through the service's timer, `unser` = completes with a value the client
+serializer cannot marshal), the route function outcome
 (`Cfg.route`), the directory (`Cfg.dir`: name ↦ type and whether an actor lives
 behind the PID), JSON decoding (`Payload.valid v | undecodable`), result
 serialisation (`Result.data origin group method v` stands for the bytes of
@@ -58,7 +59,7 @@ inductive Shape | request | notify
   deriving DecidableEq, Repr
 
 /-- what a handler body does; every behaviour completes exactly once when given a completion -/
-inductive Beh | ok | fail | panic | slow | late
+inductive Beh | ok | fail | panic | slow | late | unser
   deriving DecidableEq, Repr
 
 structure Handler where
@@ -125,7 +126,22 @@ def stamp (fx : Fixes) (s : Sess) : Nat :=
 inductive Result
   | data (origin group method : String) (v : Nat)
   | error
+  /-- a success response with an empty body -/
+  | blank
+  /-- (handler level only, never on the wire) completed with a value `serializer.Marshal` refuses -/
+  | unser
   deriving DecidableEq, Repr
+
+/-- the front's own completion in `Process`: `Marshal` error → `ResponseMID(id, nil, serializeErr)` and return -/
+def wireLocal : Result → Result
+  | .unser => .error
+  | r => r
+
+/-- `ProcessForwardMsg`: `data, err := serializer.Marshal(ret)` — the error is ignored and the reply
+carries nil `Data` and no `Error`: the front relays a success with an empty body -/
+def wireBack : Result → Result
+  | .unser => .blank
+  | r => r
 
 inductive Effect
   /-- the body of handler `group.method` ran at service `svc` with decoded argument `v` -/
@@ -172,6 +188,7 @@ def behResult (svc g m : String) (v : Nat) : Beh → Nat × Result
   | .panic => (0, .error)
   | .slow => (slowMs, .data svc g m v)
   | .late => (lateMs, .data svc g m v)
+  | .unser => (0, .unser)
 
 def tryCallCol (fx : Fixes) (c : Cfg) (svc type g m : String) (id : Nat) (pay : Payload) : CallRes :=
   match c.handlers type g m with
@@ -202,7 +219,7 @@ def serveLocal (fx : Fixes) (c : Cfg) (s : Sess) (msg : ClientMsg) (g m : String
   invokeEff c.frontName g m r.invoked ++
     match r.done with
     | none => []
-    | some (d, res) => if msg.id = 0 then [] else [.respond d s.sid msg.id res]   -- ResponseMID refuses id 0
+    | some (d, res) => if msg.id = 0 then [] else [.respond d s.sid msg.id (wireLocal res)]   -- ResponseMID refuses id 0
 
 /-! ## forwarded path -/
 
@@ -227,7 +244,7 @@ def processForward (fx : Fixes) (c : Cfg) (svc : String) (inst : Inst) (f : FwdM
   else
     let r := tryCallCol fx c svc inst.type p.2.1 p.2.2 f.clientReqId f.pay
     (invokeEff svc p.2.1 p.2.2 r.invoked,
-     r.done.map fun dr => (dr.1, ⟨f.sessionId, f.clientReqId, dr.2⟩))
+     r.done.map fun dr => (dr.1, ⟨f.sessionId, f.clientReqId, wireBack dr.2⟩))
 
 /-- the `RequestEx(pid, "sys.call", …)` callback of `Forward` -/
 def relay (s : Sess) (msg : ClientMsg) : Option (Nat × BackReply) → List Effect
@@ -353,6 +370,7 @@ def zoo (g m : String) : Option Handler :=
   else if m = "boom" then some ⟨.request, .panic⟩
   else if m = "slow" then some ⟨.request, .slow⟩
   else if m = "late" then some ⟨.request, .late⟩
+  else if m = "nan" then some ⟨.request, .unser⟩
   else if m = "tell" then some ⟨.notify, .ok⟩
   else none
 
